@@ -231,7 +231,7 @@ CFG = {
         "go_getDatum_eq_js", "ell_nz", "dec_toNum_ne_zero", "go_deriveTables_eq_js",
         # ... composed: DeriveConstants as a whole, and Parse(def) = new Proj(def) up to init for one definition string
         "goFold_keeps", "js_fold_keeps", "deriveTables_keepsG", "deriveTables_keepsJ", "go_deriveTail_eq_js",
-        "go_deriveConstants_eq_js", "fresh_of_projString", "go_parse_eq_js",
+        "go_deriveConstants_eq_js", "fresh_of_projString", "go_parse_eq_js", "same_of_parse", "go_merc_fwd_parsed_eq_js",
         # normalised source text of the functions whose model is still hand-written (any edit = broken tie)
         "getDatum_pinned", "geocentric_to_geodetic_pinned", "datumTransform_pinned", "checkNotWGS_pinned", "NewTransform_pinned",
         "transform3_pinned", "TMerc_inverse_pinned", "Krovak_inverse_pinned",
